@@ -253,6 +253,11 @@ pub fn eval(case: &Case) -> Verdict {
         "ts_oob" => check_ts_oob(i[0] as i64),
         "order" => check_order(i[0] as i64, i[1] as i64),
         "mixed_order" => check_mixed_order(i[0] as i32, i[1] as i64),
+        "and_hms_invalid" => match guarded(|| ad::date(i[0] as i32).and_hms(i[1] as u32, i[2] as u32, i[3] as u32, i[4] as u32)) {
+            Ok(Err(_)) => Ok(()),
+            Ok(Ok(x)) => Err(format!("Date({}).and_hms({},{},{},{}) = Ok({}) for a tuple that is not a time of day", i[0], i[1], i[2], i[3], i[4], x.usecs())),
+            Err(p) => Err(p),
+        },
         k => Err(format!("unknown case kind {k}")),
     };
     match r {
@@ -295,6 +300,23 @@ pub fn run(ctx: &Ctx) -> (Stats, Report) {
                 if let Err(m) = check_pair(r.n, t) {
                     st.fail(i, Case::new(P, "pair", vec![r.n as i128, t as i128], vec![]), m);
                     return;
+                }
+                // Date::and_hms with tuples just outside the clock range, on this date
+                if k == 0 {
+                    for (hh, mi2, ss2, us2) in [(23u32, 59u32, 60u32, 0u32), (24, 0, 0, 0), (23, 60, 0, 0), (23, 59, 59, 1_000_000), (23, 59, 60, 999_999)] {
+                        st.evaluations += 1;
+                        match guarded(|| ad::date(r.n).and_hms(hh, mi2, ss2, us2)) {
+                            Ok(Err(_)) => {}
+                            Ok(Ok(x)) => {
+                                st.fail(i, Case::new(P, "and_hms_invalid", vec![r.n as i128, hh as i128, mi2 as i128, ss2 as i128, us2 as i128], vec![]), format!("Date({}).and_hms({hh},{mi2},{ss2},{us2}) = Ok({}) for a tuple that is not a time of day", r.n, x.usecs()));
+                                return;
+                            }
+                            Err(p) => {
+                                st.fail(i, Case::new(P, "and_hms_invalid", vec![r.n as i128, hh as i128, mi2 as i128, ss2 as i128, us2 as i128], vec![]), p);
+                                return;
+                            }
+                        }
+                    }
                 }
                 // the instant against the dates around it (previous day, same day, next day, a far one)
                 let a = (r.n as i128 * US_PER_DAY + t as i128) as i64;
@@ -495,7 +517,7 @@ pub fn run(ctx: &Ctx) -> (Stats, Report) {
     st.section("ordering_pairs", &mut mark);
 
     let rep = Report {
-        rule: "Exhaustive: every date x critical times of day (midnight, +1us, noon-1/noon/noon+1, last us, 11:59, 23:59:59) plus seeded random times, each instant also compared (==, !=, <, <=, >, >=, partial_cmp, both argument orders) with the Date of the previous, same and next day and a far day; every second of the day x boundary microseconds (also inside the first/last supported day and the days around 1970); all 10^6 microseconds at three seconds; the (h,m,s,us) validity grid with u32 extremes; ordering/equality/hash over boundary-pool neighbour pairs and seeded pairs. Oracle: i128 arithmetic n*86400e6+t and div/rem decomposition, walked calendar for y/m/d. Non-trivial = before 1970, exact midnight or last microsecond of a day, rejected tuple, out-of-range count; ordering pairs counted by distinct fingerprint.".into(),
+        rule: "Exhaustive: every date x critical times of day (midnight, +1us, noon-1/noon/noon+1, last us, 11:59, 23:59:59) plus seeded random times, each instant also compared (==, !=, <, <=, >, >=, partial_cmp, both argument orders) with the Date of the previous, same and next day and a far day; Date::and_hms with five tuples just outside the clock range on every date; every second of the day x boundary microseconds (also inside the first/last supported day and the days around 1970); all 10^6 microseconds at three seconds; the (h,m,s,us) validity grid with u32 extremes; ordering/equality/hash over boundary-pool neighbour pairs and seeded pairs. Oracle: i128 arithmetic n*86400e6+t and div/rem decomposition, walked calendar for y/m/d. Non-trivial = before 1970, exact midnight or last microsecond of a day, rejected tuple, out-of-range count; ordering pairs counted by distinct fingerprint.".into(),
         assumptions: vec![
             "second() is compared with the correctly rounded double of (microseconds within the minute)/10^6".into(),
             "hash consistency is checked with std's fixed-key DefaultHasher".into(),
